@@ -20,7 +20,7 @@ LEVEL_NOTE = (
     "Trusted: numpy dense linear algebra, scipy's LinearOperator composition machinery. Tolerance 1e-10 x magnitude "
     "(inputs are small integers or QR factors of them). Bounds: n <= 8, k <= 4, <= 4 sequences of <= 5 unary operations."
 )
-TECHNIQUE = "property-based testing (Hypothesis), operation sequences on a shared object vs dense-matrix reference"
+TECHNIQUE = "property-based testing (Hypothesis), operation sequences on a shared object vs dense-matrix reference + coverage-guided fuzzing stage (atheris/libFuzzer driving the same strategy and oracle)"
 BUDGET = {"quick": 4000, "thorough": 100000}
 FUZZ = {"quick": 3200, "thorough": 160000}  # executions of the coverage-guided stage (vlib/fuzz.py)
 RULE = (
